@@ -42,9 +42,14 @@ SetToSeq(S) == LET RECURSIVE go(_) go(T) == IF T = {} THEN << >> ELSE LET x == C
 Record(tags, kind) == LET sq == SetToSeq(tags) IN bad \o [i \in 1..Len(sq) |-> [l |-> l, tag |-> sq[i].tag, dev |-> sq[i].dev, kind |-> kind]]
 
 \* judge with guard G(D) and extra (deviation-independent) tags X
-Verdict(G(_), X) ==
+\* rel: whether a deviation can matter for this event at all (it involves SLI, CCFB or REMB code, or a
+\* datagram or list that may contain them); if not, the strict clauses stand without re-evaluation
+DevKinds == {"SLI", "CCFB", "REMB", "LIST", "CP", "DGRAM"}
+Verdict(G(_), X, rel) ==
   LET strict == G({}) \cup X IN
-  IF strict = {} THEN {} ELSE Attribute(strict, G(Deviations) \cup X, LAMBDA d : G({d}) \cup X)
+  IF strict = {} THEN {}
+  ELSE IF ~rel THEN { [tag |-> t, dev |-> ""] : t \in strict }
+  ELSE Attribute(strict, G(Deviations) \cup X, LAMBDA d : G({d}) \cup X)
 
 e == Trace[l]
 Step(tags, ks, kind) ==
@@ -80,25 +85,27 @@ TrMarshal ==
          /\ provdec' = IF res.ok /\ e.h \in fromdec THEN provdec \cup {e.h} ELSE provdec \ {e.h}
          /\ UNCHANGED fromdec
          /\ pk'   = IF e.post.k = "SAME" THEN pk ELSE [pk EXCEPT ![e.h] = e.post]
-         /\ Step(Verdict(G, Modified(e)), {IF res.ok THEN "marshal_ok" ELSE "marshal_err"}, pk[e.h].k)
+         \* C09 compares the second decode with the packets the caller holds: Marshal must leave them as they were
+         /\ Step(Verdict(G, Modified(e) \cup (IF e.h \in fromdec /\ pk[e.h].k = "LIST" /\ Modified(e) # {} THEN {"C09:marshal_changed_decoded_packets"} ELSE {}),
+                         (pk[e.h].k \in DevKinds)), {IF res.ok THEN "marshal_ok" ELSE "marshal_err"}, pk[e.h].k)
 TrSize ==
   /\ e.op = "size"
   /\ LET G(D) == IF pk[e.h].k = "NONE" THEN {"TRACE:call_on_missing_packet"} ELSE SizeGuard(D, e.h, e.out) IN
      /\ memo' = [memo EXCEPT ![e.h].size = e.out] /\ UNCHANGED << buf, prov, fromdec, provdec >>
      /\ pk' = IF e.post.k = "SAME" THEN pk ELSE [pk EXCEPT ![e.h] = e.post]
-     /\ Step(Verdict(G, Modified(e)), {"size"}, pk[e.h].k)
+     /\ Step(Verdict(G, Modified(e), (pk[e.h].k \in DevKinds)), {"size"}, pk[e.h].k)
 TrDest ==
   /\ e.op = "dest"
   /\ LET G(D) == IF pk[e.h].k = "NONE" THEN {"TRACE:call_on_missing_packet"} ELSE DestGuard(D, e.h, e.out) IN
      /\ memo' = [memo EXCEPT ![e.h].dest = e.out, ![e.h].hasdest = TRUE] /\ UNCHANGED << buf, prov, fromdec, provdec >>
      /\ pk' = IF e.post.k = "SAME" THEN pk ELSE [pk EXCEPT ![e.h] = e.post]
-     /\ Step(Verdict(G, Modified(e)), {"dest"}, pk[e.h].k)
+     /\ Step(Verdict(G, Modified(e), (pk[e.h].k \in DevKinds)), {"dest"}, pk[e.h].k)
 TrHeader ==
   /\ e.op = "header"
   /\ LET G(D) == IF pk[e.h].k = "NONE" THEN {"TRACE:call_on_missing_packet"} ELSE HeaderGuard(D, e.h, e.out) IN
      /\ UNCHANGED << buf, prov, memo, fromdec, provdec >>
      /\ pk' = IF e.post.k = "SAME" THEN pk ELSE [pk EXCEPT ![e.h] = e.post]
-     /\ Step(Verdict(G, Modified(e)), {"header"}, pk[e.h].k)
+     /\ Step(Verdict(G, Modified(e), (pk[e.h].k \in DevKinds)), {"header"}, pk[e.h].k)
 \* Len() accessor (C05) and ReceiverEstimatedMaximumBitrate.MarshalTo (C03, C05, C08)
 TrLen ==
   /\ e.op = "lenacc"
@@ -106,7 +113,7 @@ TrLen ==
                  ELSE IF WFAny(D, pk[e.h]) /\ e.out # SizeAny(pk[e.h]) THEN {"C05:len_accessor"} ELSE {} IN
      /\ UNCHANGED << buf, prov, memo, fromdec, provdec >>
      /\ pk' = IF e.post.k = "SAME" THEN pk ELSE [pk EXCEPT ![e.h] = e.post]
-     /\ Step(Verdict(G, Modified(e)), {"size"}, pk[e.h].k)
+     /\ Step(Verdict(G, Modified(e), (pk[e.h].k \in DevKinds)), {"size"}, pk[e.h].k)
 TrMarshalTo ==
   /\ e.op = "marshalto"
   /\ LET v == pk[e.h]
@@ -120,7 +127,7 @@ TrMarshalTo ==
                       \cup (IF Over(v) /\ e.ok THEN {"C08:over_limit_accepted"} ELSE {}) IN
      /\ UNCHANGED << buf, prov, memo, fromdec, provdec >>
      /\ pk' = IF e.post.k = "SAME" THEN pk ELSE [pk EXCEPT ![e.h] = e.post]
-     /\ Step(Verdict(G, Modified(e)), {"marshal_ok"}, pk[e.h].k)
+     /\ Step(Verdict(G, Modified(e), (pk[e.h].k \in DevKinds)), {"marshal_ok"}, pk[e.h].k)
 
 TrString ==
   /\ e.op = "string"
@@ -128,20 +135,20 @@ TrString ==
          G(D) == IF pk[e.h].k = "NONE" THEN {"TRACE:call_on_missing_packet"} ELSE StringGuard(e.h, res) IN
      /\ memo' = [memo EXCEPT ![e.h].str = e.out, ![e.h].hasstr = TRUE] /\ UNCHANGED << buf, prov, fromdec, provdec >>
      /\ pk' = IF e.post.k = "SAME" THEN pk ELSE [pk EXCEPT ![e.h] = e.post]
-     /\ Step(Verdict(G, Modified(e)), {"string"}, pk[e.h].k)
+     /\ Step(Verdict(G, Modified(e), (pk[e.h].k \in DevKinds)), {"string"}, pk[e.h].k)
 
 TrValidate ==
   /\ e.op = "validate"
   /\ LET G(D) == IF pk[e.h].k = "NONE" THEN {"TRACE:call_on_missing_packet"} ELSE ValidateTags(pk[e.h], [ok |-> e.ok, panic |-> e.panic]) IN
      /\ UNCHANGED << buf, prov, memo, fromdec, provdec >>
      /\ pk' = IF e.post.k = "SAME" THEN pk ELSE [pk EXCEPT ![e.h] = e.post]
-     /\ Step(Verdict(G, Modified(e)), {"validate", "wf_values"}, pk[e.h].k)
+     /\ Step(Verdict(G, Modified(e), (pk[e.h].k \in DevKinds)), {"validate", "wf_values"}, pk[e.h].k)
 TrCname ==
   /\ e.op = "cname"
   /\ LET G(D) == IF pk[e.h].k = "NONE" THEN {"TRACE:call_on_missing_packet"} ELSE CnameTags(pk[e.h], [ok |-> e.ok, panic |-> e.panic, out |-> e.out]) IN
      /\ UNCHANGED << buf, prov, memo, fromdec, provdec >>
      /\ pk' = IF e.post.k = "SAME" THEN pk ELSE [pk EXCEPT ![e.h] = e.post]
-     /\ Step(Verdict(G, Modified(e)), {"cname"}, pk[e.h].k)
+     /\ Step(Verdict(G, Modified(e), (pk[e.h].k \in DevKinds)), {"cname"}, pk[e.h].k)
 
 \* NACK helpers (C12): stateless calls
 TrNack ==
@@ -151,14 +158,14 @@ TrNack ==
                         [] e.op = "packetlists" -> PacketListsTags(e.id, e.args, e.out)
                         [] e.op = "ranges" -> RangesTags(e.pid, e.blp, e.out) \cup (IF ~e.argsame THEN {"C18:packet_modified"} ELSE {})
          G(D) == tags IN
-     /\ UNCHANGED vars /\ Step(Verdict(G, {}), {"nack"}, "NACKHELPER")
+     /\ UNCHANGED vars /\ Step(Verdict(G, {}, FALSE), {"nack"}, "NACKHELPER")
 
 \* REMB tables (C14)
 TrRemb ==
   /\ e.op \in {"rembdec", "rembenc"}
   /\ LET G(D) == IF e.panic THEN {"C14:panic"}
                  ELSE IF e.op = "rembdec" THEN RembDecTags(D, e.exp, e.args, e.out) ELSE RembEncTags(e.args, e.out) IN
-     /\ UNCHANGED vars /\ Step(Verdict(G, {}), {"nack"}, "REMB")
+     /\ UNCHANGED vars /\ Step(Verdict(G, {}, TRUE), {"nack"}, "REMB")
 
 \* unit tables and exhaustive Go sweeps (C16)
 TrTables ==
@@ -170,7 +177,7 @@ TrTables ==
                         [] e.op = "sweep" -> (IF e.failures # << >> THEN
                                                  {IF e.entry = "nackequiv32" THEN "C12:equivariance"
                                                   ELSE IF e.entry \in {"rembscale24", "rembencint", "rembenctop18", "rembencscale", "rembencsat"} THEN "C14:scaling" ELSE "C16:sweep"} ELSE {}) IN
-     /\ UNCHANGED vars /\ Step(Verdict(G, {}), {"nack"}, IF e.op = "rletable" THEN "rle" ELSE e.entry)
+     /\ UNCHANGED vars /\ Step(Verdict(G, {}, FALSE), {"nack"}, IF e.op = "rletable" THEN "rle" ELSE e.entry)
 
 DecRes(ev) == [ok |-> ev.ok, out |-> ev.out, panic |-> ev.panic, slow |-> ev.slow, alloc |-> ev.alloc]
 DecClass(prefix, st, ok) ==
@@ -197,7 +204,7 @@ TrUnmarshal ==
      /\ pk' = [pk EXCEPT ![e.h] = IF res.ok THEN res.out ELSE None]
      /\ memo' = [memo EXCEPT ![e.h] = SrcMemo(e.b, e.entry)] /\ UNCHANGED << buf, prov, provdec >>
      /\ fromdec' = IF res.ok THEN fromdec \cup {e.h} ELSE fromdec \ {e.h}
-     /\ Step(Verdict(G, InputMod(e)),
+     /\ Step(Verdict(G, InputMod(e), (e.entry \in DevKinds)),
              DecClass("dec", DecEntry({}, e.entry, buf[e.b]).st, res.ok)
              \cup (IF prov[e.b].k = e.entry THEN {"roundtrips"} ELSE {}), e.entry)
 TrDatagram ==
@@ -215,21 +222,21 @@ TrDatagram ==
      /\ pk' = [pk EXCEPT ![e.h] = IF res.ok THEN [k |-> "LIST", pkts |-> res.out] ELSE None]
      /\ memo' = [memo EXCEPT ![e.h] = SrcMemo(e.b, "LIST")] /\ UNCHANGED << buf, prov, provdec >>
      /\ fromdec' = IF res.ok THEN fromdec \cup {e.h} ELSE fromdec \ {e.h}
-     /\ Step(Verdict(G, InputMod(e)),
+     /\ Step(Verdict(G, InputMod(e), ("DGRAM" \in DevKinds)),
              DecClass("dgram", DecDatagram({}, buf[e.b]).st, res.ok)
              \cup (IF prov[e.b].k # "NONE" THEN {"roundtrips"} ELSE {}), "DGRAM")
 TrUnitDec ==
   /\ e.op = "udec"
   /\ LET res == DecRes(e)
          G(D) == UnitDecodeTags(e.entry, buf[e.b], res) IN
-     /\ UNCHANGED vars /\ Step(Verdict(G, InputMod(e)), {"unit_dec"}, e.entry)
+     /\ UNCHANGED vars /\ Step(Verdict(G, InputMod(e), (e.entry \in DevKinds)), {"unit_dec"}, e.entry)
 TrUnitEnc ==
   /\ e.op = "uenc"
   /\ LET res == MarshalRes(e)
          G(D) == UnitEncodeTags(e.entry, e.v, res) IN
      /\ buf' = [buf EXCEPT ![e.h] = IF res.ok THEN res.out ELSE << >>]
      /\ prov' = [prov EXCEPT ![e.h] = None] /\ provdec' = provdec \ {e.h} /\ UNCHANGED << pk, memo, fromdec >>
-     /\ Step(Verdict(G, {}), {"unit_enc"}, e.entry)
+     /\ Step(Verdict(G, {}, (e.entry \in DevKinds)), {"unit_enc"}, e.entry)
 
 TraceNext ==
   /\ l <= Len(Trace)
